@@ -58,9 +58,6 @@ Qed.
 Definition intdiv_guard (a b : Z) : bool :=
   (b =? 0) || (a mod b =? 0) || ((0 <=? a) && (0 <? b)) || ((a <=? 0) && (b <? 0)).
 
-Lemma intdiv_form : forall a b, app2 "//" a b = if b =? 0 then IEvalErr else IVal (a / b).
-Proof. intros. table. destruct (b =? 0); reflexivity. Qed.
-
 Lemma quot_div_guard : forall a b, b <> 0 -> (Z.quot a b = a / b <-> intdiv_guard a b = true).
 Proof.
   intros a b Hb. unfold intdiv_guard.
@@ -86,36 +83,6 @@ Proof.
       rewrite Z.quot_opp_opp by lia.
       rewrite Z.quot_div_nonneg by lia.
       rewrite Z.div_opp_opp by lia. reflexivity.
-Qed.
-
-Lemma intdiv_ok_guarded : forall a b, intdiv_guard a b = true -> app2 "//" a b = iso_intdiv a b.
-Proof.
-  intros a b G. rewrite intdiv_form. unfold iso_intdiv.
-  destruct (b =? 0) eqn:E; [reflexivity|].
-  f_equal. symmetry. apply quot_div_guard; [lia|exact G].
-Qed.
-
-Lemma intdiv_differs_unguarded : forall a b, intdiv_guard a b = false -> app2 "//" a b <> iso_intdiv a b.
-Proof.
-  intros a b G. rewrite intdiv_form. unfold iso_intdiv.
-  destruct (b =? 0) eqn:E.
-  - unfold intdiv_guard in G. rewrite E in G. discriminate.
-  - intro H. injection H as H. symmetry in H. apply quot_div_guard in H; [|lia]. congruence.
-Qed.
-
-Lemma intdiv_floor_minus_one : forall a b, intdiv_guard a b = false -> app2 "//" a b = IVal (Z.quot a b - 1).
-Proof.
-  intros a b G. rewrite intdiv_form. unfold intdiv_guard in G.
-  destruct (b =? 0) eqn:E; [discriminate|].
-  assert (Hb : b <> 0) by lia.
-  pose proof (Z.quot_rem a b Hb) as Hq.
-  pose proof (Z.div_mod a b Hb) as Hd.
-  assert (Hm : b > 0 -> 0 <= a mod b < b) by (intro; apply Z.mod_pos_bound; lia).
-  assert (Hn : b < 0 -> b < a mod b <= 0) by (intro; apply Z.mod_neg_bound; lia).
-  assert (Hr : Z.abs (Z.rem a b) < Z.abs b) by (apply Z.rem_bound_abs; exact Hb).
-  assert (Hs : 0 <= a -> 0 <= Z.rem a b) by (intro; apply Z.rem_nonneg; lia).
-  assert (Ht : a <= 0 -> Z.rem a b <= 0) by (intro; apply Z.rem_nonpos; lia).
-  f_equal. nia.
 Qed.
 
 Lemma min_ok : forall a b, app2 "min" a b = iso_min a b.
@@ -190,3 +157,19 @@ Proof.
 Qed.
 Lemma truncate_ok : forall q, is_m (EApp1 "truncate" (ENum (VFlt q))) = OVal (VInt (iso_truncate q)).
 Proof. intros. rewrite <- q_trunc_quot. reflexivity. Qed.
+
+(* X // Y under the guard.  The script does not depend on how the table computes the
+   quotient (it goes through for the floor version and for a truncating repair alike):
+   full unfolding, case split on every test, then nonlinear arithmetic over the Euclidean
+   division equations of div / mod / quot / rem. *)
+Ltac Zify.zify_post_hook ::= Z.to_euclidean_division_equations.
+Ltac split_ifs :=
+  repeat match goal with
+  | |- context [if ?c then _ else _] => let E := fresh "E" in destruct c eqn:E
+  end.
+Lemma intdiv_ok_guarded : forall a b, intdiv_guard a b = true -> app2 "//" a b = iso_intdiv a b.
+Proof.
+  intros a b G. unfold intdiv_guard in G.
+  cbv -[Z.div Z.modulo Z.eqb Z.ltb Z.leb Z.gtb Z.geb Z.quot Z.opp Z.add Z.sub Z.mul].
+  split_ifs; try reflexivity; try (exfalso; lia); f_equal; nia.
+Qed.
